@@ -29,6 +29,7 @@ func runC20(r *Report) {
 	c20FilesIndex(r)
 	c20FilesImmutable(r, "R1")
 	c20Exhaustive(r)
+	c20FilesAfterComplete(r, "R1")
 	rangeExhaustive(r, "R2", func(f *ssa.Function) bool { pk := relPkg(f); return pk == "http" || pk == "fuse" }, 1)
 	c20R2(r)
 	c20R3(r)
@@ -1490,4 +1491,55 @@ func c20Exhaustive(r *Report) {
 	if n == 0 {
 		r.Info("R1", "Files-loops/no-early-exit", token.NoPos, "no loop over the file table in the front-ends has an early exit")
 	}
+}
+
+// c20FilesAfterComplete: the file table is published by the store of infoComplete that ends MetadataComplete; a
+// front-end reads Torrent.Files only on a path on which InfoComplete() has answered true *before* the read. A value
+// read first and tested afterwards can be the empty table of a magnet torrent whose metadata completed in between
+// (the handler blocks on the torrent's goroutine in the meantime): a multi-file torrent is then served through the
+// single-file branch.
+func c20FilesAfterComplete(r *Report, rule string) {
+	p := r.P
+	files := p.Field("tor", "Torrent", "Files")
+	ic := p.Func("tor", "Torrent.InfoComplete")
+	if !r.Anchor(rule, "tor.Torrent.Files", files != nil) || !r.Anchor(rule, "tor.(*Torrent).InfoComplete", ic != nil) {
+		return
+	}
+	n := 0
+	seen := map[string]int{}
+	for _, acc := range p.fieldAccesses(files) {
+		f := acc.Fn
+		if pk := relPkg(f); pk != "http" && pk != "fuse" {
+			continue
+		}
+		n++
+		r.Fn(f)
+		isIC := func(g Guard) bool {
+			c, ok := g.Cond.(*ssa.Call)
+			return ok && c.Call.StaticCallee() == ic && g.Pol
+		}
+		held := p.factHolds(acc.Instr, isIC, 0)
+		if !held && f.Parent() != nil {
+			// a function literal (a sort comparator) made where the test has been passed
+			held = true
+			nMC := 0
+			allInstrs(f.Parent(), func(in ssa.Instruction) {
+				if mc, ok := in.(*ssa.MakeClosure); ok && mc.Fn == ssa.Value(f) {
+					nMC++
+					if !p.factHolds(mc, isIC, 0) {
+						held = false
+					}
+				}
+			})
+			held = held && nMC > 0
+		}
+		key := fmt.Sprintf("%s/Files-read-after-InfoComplete", fname(f))
+		seen[key]++
+		if seen[key] > 1 {
+			key = fmt.Sprintf("%s#%d", key, seen[key])
+		}
+		r.Check(held, rule, key, acc.Instr.Pos(), "the file table is read on a path on which InfoComplete() already answered true",
+			fname(f)+" reads Torrent.Files on a path on which InfoComplete() has not yet answered true: the value may be the empty table of a torrent whose metadata completes a moment later (between this read and the test), and a multi-file torrent is then listed and served as a single file — its real files unreachable, a name that is no file listed")
+	}
+	r.Sentinel(rule+".files-reads", n, 5)
 }
